@@ -285,7 +285,7 @@ Inductive kind :=
 | KDescr | KDataClass | KUnits | KAddUnits | KExponents | KAddExponents | KConversion | KOrdinal | KUserData
 (* tranche 2 *)
 | KDiscrete | KIntegral | KRefState | KConverg | KRMotion | KAMotion | KBIter | KZIter | KSimType | KGravity
-| KAxisym | KRotating | KEqSet | KGoverning.
+| KAxisym | KRotating | KEqSet | KGoverning | KEqDim.
 Scheme Equality for kind.
 Definition kind_eqb := kind_beq.
 
@@ -296,7 +296,7 @@ Definition all_kinds : list kind :=
    KInterp; KHole; KHoleRange; KFamily; KFamilyBC; KFamName; KFamFamName; KGeoRef; KGeoFile; KGeoFormat; KGeoEntity;
    KDescr; KDataClass; KUnits; KAddUnits; KExponents; KAddExponents; KConversion; KOrdinal; KUserData;
    KDiscrete; KIntegral; KRefState; KConverg; KRMotion; KAMotion; KBIter; KZIter; KSimType; KGravity; KAxisym;
-   KRotating; KEqSet; KGoverning].
+   KRotating; KEqSet; KGoverning; KEqDim].
 
 Inductive card := COne | COpt | CMany.
 Definition card_ok (cd : card) (n : nat) : bool :=
@@ -413,7 +413,9 @@ Definition spec (k : kind) : kspec :=
   | KGravity => mkSpec (s "Gravity_t") (Some (s "Gravity")) false SNone CxKeep ([many KArray] ++ dddu)
   | KAxisym => mkSpec (s "Axisymmetry_t") (Some (s "Axisymmetry")) false SNone CxKeep ([many KArray] ++ dddu)
   | KRotating => mkSpec (s "RotatingCoordinates_t") (Some (s "RotatingCoordinates")) false SNone CxKeep ([many KArray] ++ dddu)
-  | KEqSet => mkSpec (s "FlowEquationSet_t") (Some (s "FlowEquationSet")) false SNone CxKeep ([opt KGoverning] ++ dddu)
+  | KEqSet => mkSpec (s "FlowEquationSet_t") (Some (s "FlowEquationSet")) false SNone CxKeep
+      ([opt KEqDim; opt KGoverning] ++ dddu)
+  | KEqDim => mkSpec (s """int""") (Some (s "EquationDimension")) false (SI4 [DFix 1]) CxKeep []
   | KGoverning => mkSpec (s "GoverningEquations_t") (Some (s "GoverningEquations")) false
       (SEnum GoverningEquationsTypeName) CxKeep (many KDescr :: [many KUserData])
   end.
@@ -1026,7 +1028,9 @@ Definition effect_of (root : ent) (cl : call) : option effect :=
       Some (mkEff p None [E KRotating (s "RotatingCoordinates") VNone
                             [arr1 KArray (s "RotationCenter") a; arr1 KArray (s "RotationRateVector") b]] KRotating)
   | F_equationset, [eqdim], [], [] =>
-      Some (mkEff p None [E KEqSet (s "FlowEquationSet") VNone []] KEqSet)
+      (* cgi_write_equations: EquationDimension ("int") only if not 0 *)
+      Some (mkEff p None [E KEqSet (s "FlowEquationSet") VNone
+                            (if eqdim =? 0 then [] else [E KEqDim (s "EquationDimension") (VInts [1] [eqdim]) []])] KEqSet)
   | F_governing, [ty], [], [] => Some (mkEff p None [E KGoverning (s "GoverningEquations") (VEnum ty) []] KGoverning)
   | _, _, _, _ => None
   end.
